@@ -1,7 +1,7 @@
 (** C07 — YAML anchors, aliases and merges resolve per the merge rules; value
     cycles are rejected, merge cycles tolerated, always in bounded time. *)
 From Coq Require Import String List Bool Arith Relations.
-From GP Require Import Model.Gv Model.YamlGraph Proofs.YamlGraphProofs.
+From GP Require Import Model.Gv Model.YamlGraph Proofs.YamlGraphProofs Proofs.YamlSem.
 Import ListNotations.
 
 (** bounded time, no stack exhaustion: for every graph (cyclic or not) the fuel
@@ -41,6 +41,29 @@ Theorem explicit_keys_spec : forall st content ks,
      is_merge_key st k = false -> exists ck, ckey_of st k = Some ck /\ In ck ks.
 Proof. exact YamlGraphProofs.explicit_keys_spec. Qed.
 
+(** THE VALUES YAML PRESCRIBES.  [sem] (Proofs/YamlSem.v) is the denotation of a node written from the merge
+    specification alone - a mapping's pairs are its own pairs in order with every `<<` entry replaced, where
+    it stands, by the pairs of its sources (an alias to a mapping, a mapping, or a sequence of those,
+    recursively), explicit keys of the mapping beating merged ones and the first merged occurrence beating
+    later ones; aliases denote their target's value; no `merged` set, no key threading through the graph.
+    On every graph without a cycle below the root the decoder computes exactly that, errors included. *)
+Theorem decode_refines_sem : forall st root, acyclic st root ->
+  (forall v, decode_yaml st root = DOk v <-> sem_yaml st root = Some v) /\
+  (decode_yaml st root = DErr <-> sem_yaml st root = None).
+Proof. exact YamlSem.decode_refines_sem. Qed.
+(** the substantive lemma: skipping mapping nodes already merged into the current top-level mapping never
+    changes the pairs a mapping yields *)
+Theorem merged_shortcut_harmless : forall st n content,
+  acyclic st n -> node st n = YMap content ->
+  (forall ps, (exists mg, range (S (length st)) st [] n = ROk ps mg) <-> flat_yaml st n = Some ps) /\
+  (range (S (length st)) st [] n = RErr <-> flat_yaml st n = None).
+Proof. exact YamlSem.merged_shortcut_harmless. Qed.
+Theorem sem_fuel_independent : forall st n g, acyclic st n -> S (length st) <= g -> sem g st n = sem_yaml st n.
+Proof. exact YamlSem.sem_fuel_independent. Qed.
+(** in the property's words, for a mapping with one merge (Section OneMerge of Proofs/YamlSem.v):
+    explicit_beats_merged, earlier_source_beats_later, merged_keys_stand_at_merge_position; merge cycles are
+    outside [acyclic] and covered by decode_total (merge_cycle_outside_domain shows one decoding fine) *)
+
 Print Assumptions range_total.
 Print Assumptions decode_total.
 Print Assumptions decode_seen.
@@ -49,3 +72,6 @@ Print Assumptions value_cycle_rejected.
 Print Assumptions skip_keys_spec.
 Print Assumptions skip_keys_first.
 Print Assumptions explicit_keys_spec.
+Print Assumptions decode_refines_sem.
+Print Assumptions merged_shortcut_harmless.
+Print Assumptions sem_fuel_independent.
